@@ -12,9 +12,7 @@ theorem f_T_cache (s : St) (p : Pid) (x : Option Elem) (rest : List Sto) : Inv s
     Inv (applySto { s with bufT := upd s.bufT p rest } (.cache x)) := by
   intro h hl hb hpc
   simp only [applySto]
-  cases h
-  simp only [ownerLocked, carry, resetting, ownerFlight] at *
   rcases hpc with ⟨r, hpc, rfl⟩ | ⟨b, hpc, rfl⟩ | ⟨hpc, rfl, htr⟩
-  all_goals tso_finish3
+  all_goals tso_fastT h p [wk4u, vk5, vu]
 
 end MythVerif.WsqTso
